@@ -818,3 +818,6 @@ M('inplace-length-set-on-the-addressed-record-only', 'fault', ['C03', 'C17', 'C0
 M('layout-guard-only-in-lazy-mode', 'fault', ['C14', 'C17'], ['SA-GUARD.layout'],
   [(PY, "        self._layout_changed = True\n\n        if self._always_consistent:\n            self._reshuffle_extents()\n        else:\n            self._needs_reshuffle = True\n\n    def _finish_remove(",
     "        if self._always_consistent:\n            self._reshuffle_extents()\n        else:\n            self._layout_changed = True\n            self._needs_reshuffle = True\n\n    def _finish_remove(")], '_finish_add')
+
+M('relocation-records-not-asked-first', 'fault', ['C14'], ['SA-VBM'],
+  [(PY, '                dr.DirectoryRecord().check_new_dir(self.pvd, name, parent,\n                                                   self.pvd.sequence_number(),\n                                                   self.rock_ridge, new_rr_name,\n                                                   self.logical_block_size,\n                                                   True, False, self.xa,\n                                                   file_mode, time.time())\n                dr.DirectoryRecord().check_new_dir(self.pvd, iso9660_name,\n                                                   parent,\n                                                   self.pvd.sequence_number(),\n                                                   self.rock_ridge, new_rr_name,\n                                                   self.logical_block_size,\n                                                   False, True, self.xa,\n                                                   file_mode, time.time())\n\n', "                pass\n\n")], 'add_directory')
